@@ -38,6 +38,8 @@ struct Rob {
 struct Walk {
     std::vector<int> inorder;
     std::set<const void*> nodes;
+    size_t max_depth = 0;      // longest root-to-node path seen (number of nodes on it)
+    size_t max_left_depth = 0; // largest number of pending (left-descended) ancestors = explicit stack height
     std::string err; // empty = structure is a finite binary tree of distinct, allocated nodes
 };
 
@@ -90,6 +92,8 @@ struct SplayImpl : ISplay {
         const Node* root = t.*get_root_ptr(RootTag<Tree>());
         // iterative in-order walk with an explicit stack; stops at `limit` nodes (cycle / sharing guard)
         std::vector<const Node*> stack;
+        std::vector<size_t> depth; // depth of the nodes on the stack
+        size_t cur_depth = 1;      // depth of `cur`
         const Node* cur = root;
         while (cur || !stack.empty()) {
             while (cur) {
@@ -110,10 +114,16 @@ struct SplayImpl : ISplay {
                     }
                 }
                 stack.push_back(cur);
+                depth.push_back(cur_depth);
+                if (cur_depth > w.max_depth) w.max_depth = cur_depth;
+                if (stack.size() > w.max_left_depth) w.max_left_depth = stack.size();
                 cur = cur->left;
+                ++cur_depth;
             }
             cur = stack.back();
             stack.pop_back();
+            cur_depth = depth.back() + 1;
+            depth.pop_back();
             w.inorder.push_back(kval(cur->key));
             cur = cur->right;
         }
